@@ -69,6 +69,15 @@ Theorem c18_suffix_sound : forall p s w,
   wf p = true -> constant_suffix p = Some s -> accepts p w -> exists pre, w = pre ++ s.
 Proof. exact constant_suffix_sound. Qed.
 
+(* ConstantSuffix as written (with its call budget, fixes/C18-suffix-budget.patch): returns on every well-formed program,
+   and what it returns -- the walk's result, or no suffix when the budget is used up -- ends every accepted word *)
+Theorem c18_suffix_budget_total : forall p, wf p = true -> exists s, constant_suffix_b p = Some s.
+Proof. exact constant_suffix_b_total. Qed.
+
+Theorem c18_suffix_budget_sound : forall p s w,
+  wf p = true -> constant_suffix_b p = Some s -> accepts p w -> exists pre, w = pre ++ s.
+Proof. exact constant_suffix_b_sound. Qed.
+
 (* ---- the acceptor used by the correspondence check only accepts accepted words *)
 Theorem c18_acceptor_sound : forall p w, accepts_b p w = true -> accepts p w.
 Proof. exact accepts_b_sound. Qed.
@@ -105,5 +114,5 @@ Proof. split; apply accepts_b_sound; vm_compute; reflexivity. Qed.
 Definition prog_suf : prog := mkProg
   [ mkInst IFail 0 0 [] []; mkInst IRune1 2 0 [97] []; mkInst IRune1 3 0 [98] []; mkInst IRune1 7 0 [99] [];
     mkInst IRune1 5 0 [98] []; mkInst IRune1 7 0 [99] []; mkInst IAlt 1 4 [] []; mkInst IMatch 0 0 [] [] ] 6.
-Example c18_ex_suffix : wf prog_suf = true /\ constant_suffix prog_suf = Some [98; 99].
+Example c18_ex_suffix : wf prog_suf = true /\ constant_suffix prog_suf = Some [98; 99] /\ constant_suffix_b prog_suf = Some [98; 99].
 Proof. vm_compute. auto. Qed.
